@@ -47,6 +47,12 @@ CLAIMS["C03"] = {
     "design_ref": "DESIGN.md section 4, C03",
     "note": "Trusted: Lean kernel + standard axioms; advertised values read through the public attributes; distance of instances with k > 13 (listed in evidence under distance_not_decided_in_lean) is decided only by the search oracle (enumeration / MacWilliams in Python), not by a theorem.",
 }
+CLAIMS["C02"] = {
+    "technique": "Lean 4 theorems: nearest-codeword argument on Nat masks (triangle inequality of the Hamming weight), correctness of the first-arg-min codebook search for every received word, combination with the kernel-checked distances of C03; executable models of the ML, syndrome-table, Hamming-inverse and RM-inverse decoders tied by correspondence; Berlekamp-Massey / Reed majority covered by an exhaustive implementation test only",
+    "text": "Unbounded theorems: any decoder returning a codeword at minimum distance corrects every error pattern of weight <= t when 2t < d (any generator matrix, any length); the model of BruteForceMLDecoder (first arg-min over the codebook in message order; bit-reversal bijection proved) returns for EVERY received word a message whose codeword is at minimum Hamming distance; hence for every catalogue instance whose distance C03 decides, ML decoding returns the transmitted message for all messages and all error patterns of weight <= floor((d-1)/2). Tie: decode lines on codewords x error patterns (exhaustive when small) and on arbitrary words (all 2^n for n<=10 quick / 12 thorough): the ML, syndrome-table (first pattern by weight then lexicographic order), Hamming single-error inverse and Reed-Muller nearest-codeword inverse models must return the same message as the implementation including tie-breaks, and within capability the transmitted message must come back. NOT proved: Berlekamp-Massey on BCH and the Reed majority decoder have no Lean model yet; the check runs them on every error pattern of weight <= t for the small codes (sampled above) - a test, labelled as such in the evidence.",
+    "design_ref": "DESIGN.md section 4, C02",
+    "note": "Trusted: Lean kernel + standard axioms; torch.argmin returns the first minimum; 'nearest' is a theorem for the ML model only - the syndrome-table / Hamming / RM-inverse models are executable definitions compared with the code; BM and Reed decoders are partial (test only).",
+}
 
 NOT_YET = {}
 
